@@ -11,10 +11,15 @@ use crate::verif_driver::{make_config, show};
 
 pub(crate) fn run(name: &str, bound: usize, shard: usize, nshards: usize) -> Value {
     match name {
+        #[cfg(openbangla_riti_verif_internal)]
         "reph" => reph::run(bound, shard, nshards),
         "split" => split::run(bound, shard, nshards),
+        #[cfg(openbangla_riti_verif_internal)]
         "backspace_step" => misc::backspace_step(bound),
+        #[cfg(openbangla_riti_verif_internal)]
         "layout_values" => misc::layout_values(),
+        #[cfg(not(openbangla_riti_verif_internal))]
+        "reph" | "backspace_step" | "layout_values" => json!({"check": name, "error": "needs the internal hooks, which do not compile against the current tree"}),
         "phonetic_api" => api::phonetic(bound, shard, nshards),
         "fixed_api" => api::fixed(bound, shard, nshards),
         "history_independence" => api::history_independence(bound),
@@ -79,7 +84,11 @@ impl Out {
     }
 }
 
+/// true when the hooks into private items (struct literal of FixedMethod, the memo field of PhoneticSuggestion) compiled
+pub(crate) const INTERNAL: bool = cfg!(openbangla_riti_verif_internal);
+
 // ---------------------------------------------------------------------------------------------
+#[cfg(openbangla_riti_verif_internal)]
 mod reph {
     use super::*;
     use crate::fixed::method::FixedMethod;
@@ -199,6 +208,7 @@ pub(crate) mod split {
 }
 
 // ---------------------------------------------------------------------------------------------
+#[cfg(openbangla_riti_verif_internal)]
 mod misc {
     use super::*;
     use crate::fixed::method::FixedMethod;
@@ -263,6 +273,11 @@ impl Sess {
             last = Some(s);
         }
         last
+    }
+    pub fn code_mod(&mut self, code: u16, modifier: u8, sel: u8) -> Suggestion {
+        self.events.push(json!({"key": code, "mod": modifier, "sel": sel}));
+        self.note();
+        self.ctx.get_suggestion_for_key(code, modifier, sel)
     }
     pub fn code(&mut self, code: u16, sel: u8) -> Suggestion {
         self.events.push(json!({"key": code, "sel": sel}));
@@ -377,6 +392,9 @@ mod api {
             Oracle { parser: Parser::new_phonetic(), data: crate::data::Data::new(&make_config(&phon_cfg(json!({})))), dict, suffixes }
         }
         /// the direct dictionary hits for a typed word
+        #[cfg(not(openbangla_riti_verif_internal))]
+        pub(crate) fn hits(&self, _w: &str) -> Vec<String> { Vec::new() }
+        #[cfg(openbangla_riti_verif_internal)]
         pub(crate) fn hits(&self, w: &str) -> Vec<String> {
             let mut ps = crate::phonetic::VerifPhoneticSuggestion::new(Default::default());
             ps.suggestion_with_dict(&crate::utility::SplittedString::split(w, false), &self.data);
@@ -1067,6 +1085,71 @@ mod api {
                 o.nontrivial += 1;
             }}
         }
+        // single-option flips on a live context, both directions, in both methods: the probe words are typed BEFORE and AFTER the
+        // switch ("including words that were already typed before"), and compared with a context newly created under the new options
+        {
+            let full = |layout: String| json!({
+                "layout": layout, "database_dir": crate::verif_driver::data_dir(), "phonetic_suggestion": true, "include_english": false,
+                "fixed_suggestion": true, "fixed_vowel": true, "fixed_chandra": false, "fixed_kar": false, "fixed_old_reph": false,
+                "fixed_numpad": false, "fixed_kar_order": false, "ansi": false, "smart_quote": false });
+            let opts = ["phonetic_suggestion", "include_english", "fixed_suggestion", "fixed_vowel", "fixed_chandra", "fixed_kar", "fixed_old_reph", "fixed_numpad", "fixed_kar_order", "ansi", "smart_quote"];
+            let bases: Vec<(&str, Value, Vec<&str>)> = vec![
+                ("phonetic", full("avro_phonetic".into()), vec!["amar", "cool", "\"kotha\"", "academy", ";)"]),
+                ("probhat", full(crate::verif_driver::probhat_layout()), vec!["bab", "tp", "hasi", "\"tp\"", "kuk", ";)"]),
+            ];
+            for (bn, base, probes) in &bases { for opt in opts { for first in [false, true] {
+                o.cases += 1;
+                let tag = match opt { "ansi" => "C11 C16 C18", "smart_quote" => "C11 C17", "include_english" => "C11 C16", _ => "C11" };
+                let mut a = base.clone(); a[opt] = json!(first);
+                let mut b = base.clone(); b[opt] = json!(!first);
+                crate::verif_driver::reset_user_files();
+                let mut s = Sess::new(a.clone());
+                for w in probes { let _ = s.typ(w); s.finish(); }
+                s.update(&b);
+                let mut fresh = Sess::new(b.clone());
+                for w in probes {
+                    let r = std::panic::catch_unwind(std::panic::AssertUnwindSafe(|| { let x = s.typ(w).unwrap(); s.finish(); x }));
+                    let y = fresh.typ(w).unwrap(); fresh.finish();
+                    match r {
+                        Ok(x) => if show(&x) != show(&y) {
+                            o.fail(json!({"clause": format!("{} an option changed by update_engine on an idle context takes effect at once, also for words typed before the change", tag), "method": bn, "option": opt, "from": first, "probe": w, "history": s.history(), "observed": show(&x), "expected": show(&y)}));
+                        },
+                        Err(_) => o.fail(json!({"clause": format!("{} an option changed by update_engine on an idle context takes effect at once, also for words typed before the change", tag), "method": bn, "option": opt, "from": first, "probe": w, "history": s.history(), "observed": "panic"})),
+                    }
+                }
+                o.nontrivial += 1;
+            }}}
+        }
+        // fixed -> fixed with another layout file, both directions: EVERY published key (plain and AltGr, key pad on) answers as in a
+        // context newly created with the new layout -- nothing of the old layout survives (C04, C11)
+        {
+            let table: Value = serde_json::from_str(&std::fs::read_to_string(crate::verif_driver::gen_file("keytable.json")).unwrap_or("[]".into())).unwrap_or(json!([]));
+            let mk = |layout: String| json!({
+                "layout": layout, "database_dir": crate::verif_driver::data_dir(), "phonetic_suggestion": false, "include_english": false,
+                "fixed_suggestion": false, "fixed_vowel": false, "fixed_chandra": false, "fixed_kar": false, "fixed_old_reph": false,
+                "fixed_numpad": true, "fixed_kar_order": false, "ansi": false, "smart_quote": false });
+            let (pl, sl) = (mk(crate::verif_driver::probhat_layout()), mk(crate::verif_driver::synthetic_layout()));
+            for (a, b, dir) in [(&pl, &sl, "Probhat -> synthetic"), (&sl, &pl, "synthetic -> Probhat")] {
+                o.cases += 1;
+                let mut s = Sess::new(a.clone());
+                let _ = s.typ("tp"); s.finish();
+                s.update(b);
+                let mut fresh = Sess::new(b.clone());
+                let mut reported = 0;
+                for r in table.as_array().cloned().unwrap_or_default() {
+                    let code = r["code"].as_u64().unwrap_or(0) as u16;
+                    for m in [0u8, 2u8] {
+                        let x = s.code_mod(code, m, 0); s.finish();
+                        let y = fresh.code_mod(code, m, 0); fresh.finish();
+                        if show(&x) != show(&y) && reported < 3 {
+                            reported += 1;
+                            o.fail(json!({"clause": "C04 C11 after a fixed -> fixed layout switch every key emits exactly what the NEW layout file assigns to it (as in a new context)", "switch": dir, "key": code, "modifier": m, "history": s.history(), "observed": show(&x), "expected": show(&y)}));
+                        }
+                    }
+                }
+                o.nontrivial += 1;
+            }
+        }
         crate::verif_driver::reset_user_files();
         o.sample(json!({"edit": "remove entry"}));
         o.done()
@@ -1316,7 +1399,7 @@ mod api {
                 let sg = s.typ(sfx).unwrap();
                 word.push_str(sfx);
                 let limit: usize = (1..=word.len()).map(|i| oracle.hits(&word[..i]).len() + 1).sum::<usize>() + 12;
-                if texts(&sg).len() > limit {
+                if INTERNAL && texts(&sg).len() > limit {
                     o.fail(json!({"clause": "C01 no unbounded blow-up: the candidate list is bounded by the direct hits of the prefixes of the word", "history": s.history(), "observed": texts(&sg).len(), "expected": format!("<= {}", limit)}));
                     break;
                 }
